@@ -50,6 +50,27 @@ Theorem C28_reference_check : forall s tx last,
 Proof. exact refs_linked. Qed.
 Print Assumptions C28_reference_check.
 
+(* The same through validateSnapshotTransaction, whatever mix of members is
+   already in persistent storage (validated and stored by an earlier round that
+   was never finalized) or only cached: an accepted member list of a snapshot
+   with more than one transaction is all batchable, and an accepted single
+   consensus-class member is linked and strictly later. *)
+Theorem C28_stored_members_batch : forall mainnet s fin last tok ms,
+  snapshot_tx_rules mainnet s fin last tok [] ms = Ok tt ->
+  (1 < length (ks_txs s))%nat ->
+  forall m, In m ms -> is_batchable (k_type (m_tx m)) = true.
+Proof. exact c28_members_batchable. Qed.
+Print Assumptions C28_stored_members_batch.
+
+Theorem C28_stored_member_alone_and_linked : forall mainnet s fin last tok m,
+  snapshot_tx_rules mainnet s fin last tok [] [m] = Ok tt ->
+  (fin && mainnet && (ks_ts s <? Consts.KsConsensusReferenceForkAt)) = false ->
+  ks_txs s = [m_hash m] -> is_consensus_class (k_type (m_tx m)) = true ->
+  exists ltx, cs_txs last = [ltx] /\
+    (ltx = k_hash (m_tx m) \/ (hd_error (k_refs (m_tx m)) = Some ltx /\ cs_ts last < ks_ts s)).
+Proof. exact c28_member_alone_linked. Qed.
+Print Assumptions C28_stored_member_alone_and_linked.
+
 (* Over every sequence of attempted consensus writes (accepted or refused, in
    any order, with any references and timestamps), the recorded history stays
    a single chain: each record holds one transaction and points at the next
@@ -102,6 +123,15 @@ Example ex_mint_older_reference_refused :
   validate_kernel_snapshot false {| ks_self := true; ks_round := 1; ks_ts := 101; ks_txs := [2%N] |}
     [(2%N, ex_mint 2 [6%N])] false ex_last true = Err.
 Proof. vm_compute. reflexivity. Qed.
+
+(* a stored mint re-proposed next to a cached script transaction is refused, in both orders *)
+Example ex_stored_mint_in_batch_refused :
+  let mint := {| m_hash := 2%N; m_tx := ex_mint 2 [7%N]; m_stored := true; m_valid := false |} in
+  let scr := {| m_hash := 1%N; m_tx := ex_script 1; m_stored := false; m_valid := true |} in
+  let s := {| ks_self := true; ks_round := 1; ks_ts := 200; ks_txs := [1%N; 2%N] |} in
+  snapshot_tx_rules false s false ex_last true [] [mint; scr] = Err
+  /\ snapshot_tx_rules false s false ex_last true [] [scr; mint] = Err.
+Proof. vm_compute. split; reflexivity. Qed.
 
 (* a chain that grows: genesis record, then two linked operations; a stale
    write in between is refused and leaves the chain as it was *)
